@@ -22,6 +22,8 @@ DESIGN = dict(
     SharedError=False,      # property.go builds a new ConstraintError for every use of a disabled property
     SortInPlace=False,      # object.go builds the required_if_not message from the list as declared
     ConvertInPlace=False,   # any.go converts the items of a slice into a new []any
+    HideRestore=False,      # oneof.go hands the member a clone without the discriminator
+    EarlyExitWalk=False,    # object.go checks given fields and required fields in two complete loops
     NoStepMutex=False,      # step.go 200-223 holds initializerMutex
     EnumEarlyReturn=False,  # enum.go: repaired (return nil -> continue)
 )
@@ -37,6 +39,7 @@ CONCRETE = {
     ("units0", "rebuilt"): ["int_chars", "int_pct", "float_pct", "int_custom0"],
     ("objmap", "fresh"): ["objmap"], ("objmap", "rebuilt"): ["objmap", "plugin_input"],
     ("objstruct", "fresh"): ["objstruct"], ("objstruct", "rebuilt"): ["objstruct"],
+    ("objreq", "fresh"): ["objreq"], ("objreq", "rebuilt"): ["objreq"],
     ("anylist", "fresh"): ["any_top", "any_prop"], ("anylist", "rebuilt"): ["any_top", "any_prop"],
     ("disabled", "fresh"): ["disabled"], ("disabled", "rebuilt"): ["disabled"],
     ("chain", "fresh"): ["chain"], ("chain", "rebuilt"): ["chain"],
@@ -61,7 +64,8 @@ def arg_class(tok):
     if tok.startswith("lim_"):
         return "limits_given"
     return {"nrand": "limits_left_out", "str_over": "out_of_range", "list_over": "out_of_range",
-            "list_mixed": "list_items", "list_bad": "list_items", "map_list": "list_items"}.get(tok, tok)
+            "list_mixed": "list_items", "list_bad": "list_items", "map_list": "list_items",
+            "data_partial": "omits_required", "props_partial": "omits_required", "schema_partial": "omits_required"}.get(tok, tok)
 
 
 def call_of(e):
